@@ -1,41 +1,47 @@
 (** C18 -- `migrate lint` flags every destructive migration file and no purely additive one.
 
     Model: Lint/LintModel.v (DevLoader.nextStmts/first/LoadChanges, sqlx RealmDiff, File.loadSpans,
-    the sqlitecheck rebuild pre-pass after fix 3711e87, destructive.Analyze, Runner exit status).
-    Vocabulary: Lint/LintSpec.v ([run], [step_at], [has_table], [has_col], [removes_table] ...).
+    the sqlitecheck rebuild pre-pass, destructive.Analyze, Runner exit status).  The pre-pass is modelled
+    after fix 3711e87 and after the two C18 fixes notes/fixes/C18-rebuild-copy-slot.diff and
+    notes/fixes/C18-rebuild-exact-rename.diff.
+    Vocabulary: Lint/LintSpec.v ([run], [step_at], [has_table], [has_col], [removes_table], [removes_col] ...).
 
-    FULL STATEMENTS (both are FALSE of the faithful model and of the real CLI, see the
-    [_refuted] theorems; the findings are recorded in known_findings.d/C18.json):
+    FULL STATEMENTS (both are FALSE of the faithful model and of the real CLI, see the [_refuted] theorems;
+    the findings are recorded in known_findings.d/C18.json):
 
-    C18_complete (full): for every start catalogue r0, every file [stmts] that executes ([run r0 stmts rs]):
-      (a) every table name present in r0 and absent after the file gets a DS102 diagnostic at the
-          position of a statement that removes that name (or of the CREATE that opens the rebuild group
-          the removing statement belongs to), and the file report carries the error;
-      (b) every column t.c present in r0 whose table survives but which is absent after the file, and
-          which is non-virtual when it is dropped, gets a DS103 naming c (or a DS102 naming t) likewise.
+    C18_complete (full): for every start catalogue r0 and every file [stmts] that executes ([run r0 stmts rs]):
+      (a) EVERY statement that removes a table name that has been present since before the file -- even if the
+          name is created again later in the file -- gets a DS102 diagnostic at its position (or at the CREATE
+          that opens the rebuild group it belongs to), and the file report carries the error;
+      (b) every statement that removes a column t.c present since before the file and non-virtual when it is
+          dropped gets a DS103 naming c (or a DS102 naming t) likewise.
     C18_sound (full): a file none of whose statements removes a table/column name that existed in r0
       gets no DS102/DS103 diagnostic (and no error).
 
     PROVED here, for all inputs:
-      C18_analyze_exact_DS102 / _DS103 / C18_diag_position   exact characterisation of the analyzer on ANY
-            change list (so also after the pre-pass): which diagnostics, where, and that the error is
-            returned iff there is one
-      C18_complete_tables_except / C18_complete_columns_except   (a)/(b) for every file on which the rebuild
-            pre-pass does not fire, except when the name is created (again) by a statement of the file
+      C18_analyze_exact_DS102 / _DS103 / C18_diag_position / C18_exit_status   exact characterisation of the
+            analyzer on ANY change list (so also after the pre-pass)
+      C18_complete_tables_dropped_except / C18_complete_columns_dropped_except   (a)/(b) for every file on which
+            the rebuild pre-pass does not fire: the statement that removes the pre-existing name is reported,
+            whether or not the name is created again afterwards -- EXCEPT when the file removes that name a
+            second time (finding `readded`: drop, re-create, drop again => nothing is reported)
+      C18_complete_tables_except / C18_complete_columns_except   the weaker "existed before, not after" forms
       C18_prepass_identity   the pre-pass does not fire when no statement creates a table named new_*
-      C18_rebuild_group_partial   a confirmed rebuild group (CREATE new_t / copy / DROP t / RENAME) is reported
-            at the position of its first statement with DS103 for every omitted non-virtual column
+      C18_rebuild_group_shape / C18_rebuild_group_partial / C18_rebuild_copy_slot_kept   a confirmed rebuild group
+            (CREATE new_t / copy without schema change / DROP t / RENAME to exactly t) is reported at the position
+            of its first statement with DS103 for every omitted non-virtual column; a schema-changing statement
+            in the copy slot prevents the fold and stays in the analysed list
       C18_sound_additive     a file none of whose statements removes a table or column name gets no diagnostic
-      C18_sound_temp_table_partial   a table name created once in the analysed list, before any drop of it
-            (create + drop of a temporary table in the file), is never named by a DS102
-      C18_complete_refuted_* / C18_sound_refuted   witnesses of the four defects (replayed on the real CLI)
-    MISSING (hence the _partial names): (i) the file-level completeness theorems 5/6 assume that the pre-pass
-    does not fire; what a confirmed group is turned into is theorem 10, but the composition "group inside a
-    longer file => exists/does not exist afterwards" is covered by the tie (stages exh, rand) only;
-    (ii) the temporary-object half of soundness is proved on the analysed change list for tables (11b); its
-    column analogue and the bridge from statements to that list are covered by the tie only. *)
+      C18_sound_temp_table_partial   a table name created once in the analysed list, before any drop of it, is
+            never named by a DS102
+      C18_complete_refuted_readded / _readded_column / C18_sound_refuted   witnesses of the two remaining defects
+    MISSING (hence the _partial names): (i) the file-level completeness theorems assume that the pre-pass does not
+    fire; what a confirmed group is turned into is proved, but the composition "group inside a longer file" is
+    covered by the tie (stages exh, rand) only; (ii) the temporary-object half of soundness is proved on the
+    analysed change list for tables; its column analogue and the bridge from statements to that list are covered
+    by the tie only. *)
 From Coq Require Import List NArith Bool Arith.
-From Atlas Require Import Base.Bytes Lint.LintModel Lint.LintSpec Lint.LintProofs Lint.LintFileProofs Lint.LintSoundProofs Lint.LintRefute.
+From Atlas Require Import Base.Bytes Lint.LintModel Lint.LintSpec Lint.LintProofs Lint.LintFileProofs Lint.LintSoundProofs Lint.LintDropProofs Lint.LintRefute.
 Import ListNotations.
 
 (** 1. destructive.Analyze, exactly: DS102 at [p] naming [n] iff a statement at [p] carries DropTable n
@@ -104,6 +110,36 @@ Theorem C18_complete_columns_except :
 Proof. exact complete_columns. Qed.
 Print Assumptions C18_complete_columns_except.
 
+(** 5'. Completeness at full strength but one exception: the statement [j] that removes table name [n], present
+    since before the file, is reported -- the name may be created again later (DROP TABLE t; CREATE TABLE t ...).
+    Exception: [n] is removed by no other statement of the file. *)
+Theorem C18_complete_tables_dropped_except :
+  forall (r0 : realm) (stmts : list pstmt) (rs : list realm) (n : name) j p b a,
+  run r0 stmts rs ->
+  rewriteTemp (changes_of r0 stmts rs) = changes_of r0 stmts rs ->       (* pre-pass does not fire *)
+  has_table r0 n ->
+  step_at r0 stmts rs j p b a -> removes_table b a n ->
+  single_table_removal r0 stmts rs n ->
+  In (mkDiag DS102 p [n]) (analyze_file (changes_of r0 stmts rs)).
+Proof. exact complete_tables_dropped. Qed.
+Print Assumptions C18_complete_tables_dropped_except.
+
+(** 6'. ... and the statement that removes column t.c (non-virtual when dropped) from the surviving table t:
+    reported with DS103 naming c even when a later statement adds a column c again
+    (ALTER TABLE t DROP COLUMN b; ALTER TABLE t ADD COLUMN b text).  Exception: t.c is removed only once. *)
+Theorem C18_complete_columns_dropped_except :
+  forall (r0 : realm) (stmts : list pstmt) (rs : list realm) (t c : name) j p b a T d,
+  wf_realm r0 -> run r0 stmts rs ->
+  rewriteTemp (changes_of r0 stmts rs) = changes_of r0 stmts rs ->
+  has_col r0 t c ->
+  step_at r0 stmts rs j p b a ->
+  find_table b t = Some T -> find_col (t_cols T) c = Some d -> has_table a t -> ~ has_col a t c ->
+  single_col_removal r0 stmts rs t c ->
+  c_virtual d = false ->
+  exists ns, In (mkDiag DS103 p ns) (analyze_file (changes_of r0 stmts rs)) /\ In c ns.
+Proof. exact complete_columns_dropped. Qed.
+Print Assumptions C18_complete_columns_dropped_except.
+
 (** 7. The pre-pass is the identity when no statement creates a table whose name starts with "new_";
     and nextStmts yields exactly [changes_of] of the run. *)
 Theorem C18_prepass_identity :
@@ -118,7 +154,8 @@ Theorem C18_nextStmts_is_run :
 Proof. exact nextStmts_iff_run. Qed.
 Print Assumptions C18_nextStmts_is_run.
 
-(** 8. The full completeness statement is false (three independent defects, each replayed on the real CLI):
+(** 8. The full completeness statement is false (defect `readded`, replayed on the real CLI; the two former
+    witnesses `hidden` and `prefix-rename` are repaired by notes/fixes/C18-rebuild-*.diff, see the Examples):
     a file executes from a well-formed catalogue, a table present before it is absent after it, and the
     analysis of the file (pre-pass + destructive analyzer) reports nothing at all. *)
 Theorem C18_complete_refuted_readded :
@@ -128,19 +165,7 @@ Theorem C18_complete_refuted_readded :
 Proof. exact (ex_intro _ w_r0 (ex_intro _ w_readd (ex_intro _ n_t readd_missed))). Qed.
 Print Assumptions C18_complete_refuted_readded.
 
-Theorem C18_complete_refuted_hidden :
-  exists (r0 : realm) (stmts : list pstmt) (n : name), let rs := states_of r0 stmts in
-    wf_realm r0 /\ run r0 stmts rs /\ nextStmts r0 stmts = inr (changes_of r0 stmts rs, last rs r0) /\
-    has_table r0 n /\ ~ has_table (last rs r0) n /\ analyze_file (changes_of r0 stmts rs) = [].
-Proof. exact (ex_intro _ w_r0 (ex_intro _ w_hidden (ex_intro _ n_victim hidden_missed))). Qed.
-Print Assumptions C18_complete_refuted_hidden.
 
-Theorem C18_complete_refuted_prefix_rename :
-  exists (r0 : realm) (stmts : list pstmt) (n : name), let rs := states_of r0 stmts in
-    wf_realm r0 /\ run r0 stmts rs /\ nextStmts r0 stmts = inr (changes_of r0 stmts rs, last rs r0) /\
-    has_table r0 n /\ ~ has_table (last rs r0) n /\ analyze_file (changes_of r0 stmts rs) = [].
-Proof. exact (ex_intro _ w_r0 (ex_intro _ w_prefix (ex_intro _ n_t prefix_missed))). Qed.
-Print Assumptions C18_complete_refuted_prefix_rename.
 
 Theorem C18_complete_refuted_readded_column :
   exists (r0 : realm) (stmts : list pstmt) (t c : name), let rs := states_of r0 stmts in
@@ -167,12 +192,13 @@ Theorem C18_rebuild_group_shape :
                currT = set_name addT (t_name prevT) /\
                ((exists f t, sc_changes c3 = [RenameTableC f t] /\ t_name f = t_name addT /\ t_name t = t_name prevT) \/
                 (exists X Y, sc_changes c3 = [DropTableC X; AddTableC Y] /\ t_name X = t_name addT /\
-                             has_prefix (t_name Y) (t_name prevT) = true)).
+                             t_name Y = t_name prevT)).
 Proof. exact modifyUsingTemp_some. Qed.
 Print Assumptions C18_rebuild_group_shape.
 
 Theorem C18_rebuild_group_partial :
   forall c0 c1 c2 c3 rest prevT currT,
+  sc_changes c1 = [] ->                                   (* the copy statement changes no schema *)
   modifyUsingTemp c0 c2 c3 = Some (prevT, currT) ->
   let cl := c0 :: c1 :: c2 :: c3 :: rest in
   rewriteTemp cl = mkSC (sc_pos c0) [ModifyTableC currT (tableDiff prevT currT)] :: rewriteTemp rest /\
@@ -181,6 +207,12 @@ Theorem C18_rebuild_group_partial :
             exists ns, In (mkDiag DS103 (sc_pos c0) ns) (analyze_file cl) /\ In (c_name d) ns.
 Proof. exact rebuild_group. Qed.
 Print Assumptions C18_rebuild_group_partial.
+
+Theorem C18_rebuild_copy_slot_kept :
+  forall c0 c1 c2 c3 rest, sc_changes c1 <> [] ->
+  rewriteTemp (c0 :: c1 :: c2 :: c3 :: rest) = c0 :: rewriteTemp (c1 :: c2 :: c3 :: rest).
+Proof. exact copy_slot_kept. Qed.
+Print Assumptions C18_rebuild_copy_slot_kept.
 
 (** 11. Soundness.  (a) Files that only add objects: no statement removes a table name or a column name. *)
 Theorem C18_sound_additive :
@@ -244,3 +276,16 @@ Proof. vm_compute. reflexivity. Qed.
 Example ex_next_is_run :
   nextStmts w_r0 w_readd = inr (changes_of w_r0 w_readd (states_of w_r0 w_readd), last (states_of w_r0 w_readd) w_r0).
 Proof. vm_compute. reflexivity. Qed.
+
+(* theorems 5', 6': the drop is reported although the name comes back *)
+Example ex_drop_add_column :
+  analyze_file (changes_of w_r0 w_drop_add_col (states_of w_r0 w_drop_add_col)) = [mkDiag DS103 0 [c_name c_b]].
+Proof. exact drop_add_col_flagged. Qed.
+
+(* the former findings hidden / prefix-rename, after the fixes *)
+Example ex_hidden_fixed :
+  analyze_file (changes_of w_r0 w_hidden (states_of w_r0 w_hidden)) = [mkDiag DS102 60 [n_victim]; mkDiag DS102 80 [n_t]].
+Proof. exact hidden_now_flagged. Qed.
+Example ex_prefix_rename_fixed :
+  analyze_file (changes_of w_r0 w_prefix (states_of w_r0 w_prefix)) = [mkDiag DS102 100 [n_t]].
+Proof. exact prefix_now_flagged. Qed.
